@@ -59,6 +59,7 @@ inductive Tok
   | call (recv meth : Str)   -- "call X.M"
   | helper (name : Str)      -- call of another requested function on the same receiver
   | go
+  | chan (op : Str)          -- a channel operation that can block: "send C" / "recv C" (also as a select case)
   | other
 deriving DecidableEq, Repr
 
@@ -88,7 +89,12 @@ def parseTok (t : Str) : Tok :=
   | none =>
   match dropPrefix (s "helper ") t with
   | some n => .helper n
-  | none => if t = s "go" then .go else .other
+  | none =>
+  match dropPrefix (s "case ") t with
+  | some op => if (dropPrefix (s "send ") op).isSome || (dropPrefix (s "recv ") op).isSome then .chan op else .other
+  | none =>
+    if (dropPrefix (s "send ") t).isSome || (dropPrefix (s "recv ") t).isSome then .chan t
+    else if t = s "go" then .go else .other
 
 /-- A function of the table: its type, name, receiver variable and regenerated skeleton. -/
 structure Fn where
@@ -145,6 +151,7 @@ inductive ETok
   | acq (m : Str) | rel (m : Str) | deferRel (m : Str)
   | enter (f : Str) | exit
   | wait (x : Str)          -- Cond.Wait / WaitGroup.Wait on x
+  | chan (op : Str)         -- blocking channel operation ("send w.shutdownSignal")
   | unresolved (x : Str)    -- a call the table cannot resolve (reported, not an error: user code, primitives)
 deriving DecidableEq, Repr
 
@@ -196,6 +203,9 @@ def expandTok (e : Env) (rec : Fn → Str → List ETok) (f : Fn) (abs : Str) (t
               | some g => rec g (rebase f.recv abs r)
               | none => [.unresolved (r ++ ['.'] ++ m)]
     | .go => []
+    | .chan op =>
+      let (k, c) := (op.takeWhile (· ≠ ' '), (op.dropWhile (· ≠ ' ')).drop 1)
+      [.chan (k ++ [' '] ++ rebase f.recv abs c)]
     | .other => []
   here ++ cb
 
@@ -220,6 +230,7 @@ structure Scan where
   edges : List (Str × Str) := []            -- held → acquired
   unresolved : List Str := []
   unbalanced : List Str := []               -- unlock of a lock that is not held
+  chanUnderLock : List (Str × List Str) := []  -- blocking channel operations made while a lock is held
 deriving Repr
 
 def addNew {α} [DecidableEq α] (xs : List α) (x : α) : List α := if xs.contains x then xs else xs ++ [x]
@@ -252,6 +263,7 @@ def scanStep (conds : List (Str × Str)) (st : Scan) : ETok → Scan
     let own := condMutex conds x
     let bad := st.held.filter (fun h => some h ≠ own)
     if bad.isEmpty then st else { st with waits := st.waits ++ [(x, bad)] }
+  | .chan op => if st.held.isEmpty then st else { st with chanUnderLock := addNew st.chanUnderLock (op, st.held) }
   | .unresolved x => { st with unresolved := addNew st.unresolved x }
 
 def scan (conds : List (Str × Str)) (toks : List ETok) : Scan := toks.foldl (scanStep conds) {}
